@@ -579,7 +579,9 @@ Args:
     abs_ = 'abs('
     eqns = [([''.join((i,j)) for i,j in zip(*_absval(e.strip(), **kwds))] if abs_ in e else [e.strip()]) for e in constraints.strip().split(NL)]
     # combine each eqn, and simplify the conditionals
-    eqns = tuple(NL.join(merge(*(NL.join(i).split(NL)), inclusive=True)) for i in it.product(*eqns)) #FIXME: inclusive=True, or False ???
+    # (the lines of a system all hold, so 'A >= 0' with 'A <= 0' is 'A = 0'; contradictory bounds are left for simplify to reject)
+    _merge = lambda *eqns: merge(*eqns, inclusive=False) or eqns
+    eqns = tuple(NL.join(_merge(*(NL.join(i).split(NL)))) for i in it.product(*eqns))
     return (eqns if all else eqns[random.randint(0,len(eqns)-1)]) if len(eqns) > 1 else (eqns[0] if len(eqns) else '') #FIXME: len(eqns) = 0 --> Error, '', ???
 
 
